@@ -83,6 +83,39 @@ def random_dag(rng: random.Random, n: int, max_parents: int = 4, connected: bool
     return edges
 
 
+def fan_dag(rng: random.Random, max_nodes: int = 10):
+    """a centre with 3-4 parents and/or 3-4 children, each of which owns a private appendix (1-2
+    nodes reachable only through it): the shape on which 'explore only the first k neighbours'
+    loses edges. Returns (n, edges)."""
+    centre = 0
+    n = 1
+    edges = []
+    for up in (True, False):
+        k = rng.choice([0, 3, 3, 4]) if n < max_nodes - 3 else 0
+        for _ in range(k):
+            if n >= max_nodes:
+                break
+            nb = n
+            n += 1
+            edges.append((nb, centre) if up else (centre, nb))
+            prev = nb
+            for _ in range(rng.randint(0, 2)):
+                if n >= max_nodes:
+                    break
+                x = n
+                n += 1
+                edges.append((x, prev) if rng.random() < 0.5 else (prev, x))
+                prev = x if rng.random() < 0.6 else prev
+    if not edges:
+        return fan_dag(rng, max_nodes)
+    perm = list(range(n))
+    rng.shuffle(perm)
+    edges = [(perm[a], perm[b]) for a, b in edges]
+    if rng.random() < 0.5:
+        rng.shuffle(edges)
+    return n, edges
+
+
 # ------------------------------------------------------------------ names / attributes
 HOSTILE = ["a b", "a/b", "é", "0", "None", "parents", "x,y", "a>b", "nan", "näme", "A", "a", "(", "'q'", "\\", "名"]
 
